@@ -50,6 +50,7 @@ POOL = [[127, 127, 8], [128, 127, 8], [127, 128, 8], [0, 0, 8], [1, 0, 8], [0, 1
 
 
 _huge_seq = [0]
+_CDIR = [C.CACHE_DIR]      # cache directory of the running case
 
 
 def _gen_huge(t):
@@ -152,7 +153,8 @@ def gen(t, tier):
         c = POOL[(start + i) % len(POOL)] if t.chance(0.7) else t.pick(POOL)
         if c not in pool:
             pool.append(c)
-    sc = {'version': version, 'mode': mode, 'pool': pool, 'bufsize': t.pick([4096, 8192, 65536])}
+    sc = {'version': version, 'mode': mode, 'pool': pool, 'bufsize': t.pick([4096, 8192, 65536]),
+          'cache_dir': t.pick([None, None, None, '/simfs/esri.bundles/cache', '/simfs/data.bundlx/c'])}
     if mode == 'seq':
         nops = t.randint(4, 25 if tier == 'quick' else 40)
         ops = M.gen_history(t, nops, pool, [None], None, big_payloads=True)
@@ -267,6 +269,8 @@ def _bundle_sizes(tree):
 def run(sc, tape):
     if sc.get('kind') == 'huge':
         return _run_huge(sc, tape)
+    # the cache may live in a directory whose name contains the bundle extension (e.g. /data/esri.bundles/osm)
+    _CDIR[0] = sc.get('cache_dir') or C.CACHE_DIR
     version = sc['version']
     name = 'compact-v%d' % version
     b = {'type': 'compact', 'version': version}
@@ -279,7 +283,7 @@ def run(sc, tape):
 def _validate(w, version, what):
     tree = w.fs.tree(copy=False)
     try:
-        return BP.validate_tree(tree, version), tree
+        return BP.validate_tree(tree, version, _CDIR[0][len('/simfs'):]), tree
     except BP.Invalid as ex:
         raise M.Mismatch('invalid-structure', '%s: %s' % (what, ex))
 
@@ -356,7 +360,7 @@ def _defrag(w, runner_cache, version, pool, model_get, op, what, probes):
         probes['defrag_rewrote_files'] = probes.get('defrag_rewrote_files', 0) + shrunk
     probes['defrag_runs'] = probes.get('defrag_runs', 0) + 1
     from mapproxy.cache.compact import CompactCacheV1, CompactCacheV2
-    fresh = (CompactCacheV1 if version == 1 else CompactCacheV2)(C.CACHE_DIR)
+    fresh = (CompactCacheV1 if version == 1 else CompactCacheV2)(_CDIR[0])
     for c in pool:
         t = C.make_tile(c)
         fresh.load_tile(t)
@@ -364,7 +368,7 @@ def _defrag(w, runner_cache, version, pool, model_get, op, what, probes):
         if got != before[tuple(c)]:
             raise M.Mismatch('defrag-changed', '%s: address %s returned %s before defragmentation and %s after' % (
                 what, tuple(c), C.describe(before[tuple(c)]), C.describe(got)))
-        ind = BP.read_tree(tree, version, c)
+        ind = BP.read_tree(tree, version, c, _CDIR[0][len('/simfs'):])
         if ind != got:
             raise M.Mismatch('parser-disagrees', '%s: address %s: cache API returns %s, independent reader %s' % (
                 what, tuple(c), C.describe(got), C.describe(ind)))
@@ -393,7 +397,7 @@ def _run_seq(sc, tape, b, name, probes):
             n, tree = _validate(w, version, 'after a mutation')
             # cross-check the API against the independent reader for every pool address
             for c in sc['pool']:
-                ind = BP.read_tree(tree, version, c)
+                ind = BP.read_tree(tree, version, c, _CDIR[0][len('/simfs'):])
                 exp = runner.model.get(M.akey(c, None))
                 fk = runner.failed_keys
                 if fk is not None and M.akey(c, None) in fk and (ind is None or ind in fk[M.akey(c, None)]):
@@ -401,7 +405,7 @@ def _run_seq(sc, tape, b, name, probes):
                 if ind != exp:
                     raise M.Mismatch('parser-disagrees', 'address %s: independent reader finds %s, model says %s' % (
                         tuple(c), C.describe(ind), C.describe(exp)))
-        runner = M.Runner(b, lambda: C.make_cache(b), sc['pool'], [None], after_mutation=after)
+        runner = M.Runner(b, lambda: C.make_cache(b, _CDIR[0]), sc['pool'], [None], after_mutation=after)
         runner.clock = w.clock
         fault = sc.get('fault')
         fstate = {'n': 0, 'fired': False, 'call': None}
@@ -490,10 +494,10 @@ def _run_conc(sc, tape, b, name, probes):
         def fn():
             if sc.get('threads'):
                 if not shared_cache:
-                    shared_cache.append(C.make_cache(b))
+                    shared_cache.append(C.make_cache(b, _CDIR[0]))
                 cache = shared_cache[0]
             else:
-                cache = C.make_cache(b)
+                cache = C.make_cache(b, _CDIR[0])
             for i, op in enumerate(ops):
                 what = 'process %d op#%d %s' % (pi, i, M._opstr(op))
                 try:
@@ -584,7 +588,7 @@ def _run_conc(sc, tape, b, name, probes):
             w.fs.sched = None
             try:
                 n, tree = _validate(w, version, 'at quiescence after concurrent writers')
-                cache = C.make_cache(b)
+                cache = C.make_cache(b, _CDIR[0])
                 for c in sc['pool']:
                     t = C.make_tile(c)
                     cache.load_tile(t)
@@ -602,7 +606,7 @@ def _run_conc(sc, tape, b, name, probes):
                         raise M.Mismatch('concurrent-' + kind, 'at quiescence address %s returns %s; the last store of '
                                          'each writing process was %s' % (tuple(c), C.describe(got),
                                                                           sorted(str(C.describe(a)) for a in allowed)))
-                    ind = BP.read_tree(tree, version, c)
+                    ind = BP.read_tree(tree, version, c, _CDIR[0][len('/simfs'):])
                     if ind != got:
                         raise M.Mismatch('parser-disagrees', 'address %s: cache API returns %s, independent reader %s' % (
                             tuple(c), C.describe(got), C.describe(ind)))
